@@ -449,14 +449,14 @@ def take_f70(c, budget):
 
 
 def strip_f71(s, token):
-    """dump without the flags that the F71 repair changes (leaf-list default/new flags, default flags of containers)"""
+    """dump without the flags that the F71 repair changes (flags of leaf-list instances, default flags of containers)"""
     if token == "-":
         return token
     f = tg.untok(s, token)
 
     def walk(n):
         if n.sn.kind == "leaflist":
-            n.flags &= ~(tg.F_DFLT | tg.F_NEW)
+            n.flags = 0                     # default / new, and all of them with LYD_MERGE_WITH_FLAGS
         if n.sn.kind == "container":
             n.flags &= ~tg.F_DFLT
         for k in n.kids:
@@ -845,7 +845,6 @@ def run(cx):
     cases = build_trees(cx, all_schemas, cases)
     vr = cx.sub_rng("variants")
     for c in cases:
-        c.feat = merge_features(tg.untok(c.s, c.t) if c.t != "-" else [], tg.untok(c.s, c.src) if c.src != "-" else [])
         r = vr.random()
         if r < 0.22:
             c.variant = "meta"
@@ -853,6 +852,7 @@ def run(cx):
         elif r < 0.32:
             c.variant = "flags"
             c.t, c.src = decorate(vr, c.s, c.t, meta=0.1, flags=0.2), decorate(vr, c.s, c.src, meta=0.1, flags=0.2)
+        c.feat = merge_features(tg.untok(c.s, c.t) if c.t != "-" else [], tg.untok(c.s, c.src) if c.src != "-" else [])
         cx.dist["pair:" + c.kind] += 1
         cx.dist["variant:" + c.variant] += 1
     budget = f70_budget(cx)
